@@ -195,19 +195,14 @@ func genC17Err(e *emitter, tier string, rng *rand.Rand) {
 			for _, n := range names {
 				scs = append(scs, scriptSrc{n, t})
 			}
-			out := loadV1(loadCase{Scripts: scs, Order: names})
-			if recs, ok := out["scripts"].([]any); ok {
-				for _, r := range recs {
-					rec, _ := r.(map[string]any)
-					var ej any
-					if rec["check_err"] != nil {
-						ej = rec["check_err"]
-					} else if rec["parse_err"] != nil {
-						ej = rec["parse_err"]
-					}
-					nameHex, _ := rec["name"].(string)
-					name := unhexs(nameHex)
-					if ej != nil && name != "" {
+			// (the real loader, engine.ParseScript: its errors by script name)
+			out := loadV1(loadCase{Scripts: scs, Order: names, Reps: 2})
+			if reals, ok := out["real"].([]any); ok {
+				for _, r := range reals {
+					rm, _ := r.(map[string]any)
+					em, _ := rm["errors"].(map[string]any)
+					for hn, ej := range em {
+						name := unhexs(hn)
 						emit(t, "errpos-same-text", a, a+len(lines[last]), ej, name, map[string]string{name: t})
 					}
 				}
